@@ -111,6 +111,9 @@ type Alt struct {
 	// YamlStyle: another legitimate spelling of the same YAML document: "" (block lists of quoted scalars), "flow"
 	// (flow sequences), "alias" (a list entry that occurs in several lists is anchored once and aliased afterwards)
 	YamlStyle string `json:"yamlstyle"`
+	// BoolStyle: how a boolean is spelled on the COMMAND LINE: "" (true / false) or one of the other spellings the
+	// plugin understands there: "1" (1 / 0), "t" (t / f), "T" (T / F), "TRUE" (TRUE / FALSE), "True" (True / False)
+	BoolStyle string `json:"boolstyle"`
 }
 
 // Cfg is the abstract configuration.
@@ -146,8 +149,9 @@ type Cfg struct {
 	// Alts are alternative renderings of the SAME run (same request paths): other channel assignments (C16),
 	// permuted entry orders or plain repetitions (C14), permuted declaration orders (C15, Msgs non-empty).
 	Alts []Alt `json:"alts"`
-	// YamlStyle of this rendering (set from the alternative being rendered)
+	// YamlStyle / BoolStyle of this rendering (set from the alternative being rendered)
 	YamlStyle string `json:"yamlstyle"`
+	BoolStyle string `json:"boolstyle"`
 	// Raw overrides for C16 failure cases: "" | noconfig | missingfile | malformed | notypes
 	Fault string `json:"fault"`
 }
